@@ -27,6 +27,11 @@ FEnum   == [s |-> <<C("enum", <<"a">>, <<"s:x", "s:y">>)>>,
             dom |-> <<Abs, Sc("s:x"), Sc("s:z"), Sc("n:1")>>, good |-> Sc("s:y"), bad |-> Sc("s:z")]
 FRange  == [s |-> <<C("minimum", <<"a">>, <<"n:1">>), C("maximum", <<"a">>, <<"n:2">>)>>,
             dom |-> <<Abs, Sc("n:0"), Sc("n:1"), Sc("n:2"), Sc("n:3"), Sc("s:x")>>, good |-> Sc("n:1"), bad |-> Sc("n:3")]
+\* bounds that only digits beyond 2^53 decide
+FBigMax == [s |-> <<C("maximum", <<"a">>, <<Big>>)>>,
+            dom |-> <<Abs, Sc(Big), Sc(Big1), Sc("n:1")>>, good |-> Sc(Big), bad |-> Sc(Big1)]
+FBigMin == [s |-> <<C("minimum", <<"a">>, <<Big1>>)>>,
+            dom |-> <<Abs, Sc(Big1), Sc(Big)>>, good |-> Sc(Big1), bad |-> Sc(Big)]
 FNested == [s |-> <<C("type", <<"a">>, <<"object">>), C("required", <<"a">>, <<"k">>), C("type", <<"a", "k">>, <<"boolean">>)>>,
             dom |-> <<Abs, Tb("k", "true"), Tb("k", "s:x"), Tb("j", "true"), Sc("n:1"), Sc("{}")>>,
             good |-> Tb("k", "false"), bad |-> Tb("k", "n:1")]
@@ -70,6 +75,10 @@ Form3(nm, f, key, full) ==
       dset  == IF full THEN ScalarOnly(<<Abs, f.good, f.bad>>) ELSE ScalarOnly(<<Abs, f.good>>)
   IN <<AtRoot(nm \o "r", f, key, dpar, dfile, dset, FALSE), AtMid(nm \o "m", f, key, dpar, dfile, dset, FALSE),
        AtLeaf(nm \o "l", f, key, dpar, dfile, dset, FALSE)>>
+
+\* the lower bound at the root, the bad content also arriving through --set
+BigMinRoot(full) == <<AtRoot("bnr", FBigMin, "a", <<Abs>>, <<Abs, FBigMin.good, FBigMin.bad>>,
+                             <<Abs, FBigMin.good, FBigMin.bad>>, FALSE)>>
 
 \* closed forms: the declared keys per placement; "ng" = `global` not declared (a subchart's final values always have one)
 ClosedShapes(full) ==
@@ -119,9 +128,11 @@ WithCrds ==
 
 QuickShapes == Form3("ty", FType, "a", FALSE) \o Form3("in", FInt, "a", FALSE) \o Form3("rq", FReq, "a", FALSE)
                \o Form3("en", FEnum, "a", FALSE) \o Form3("rg", FRange, "a", FALSE) \o Form3("ne", FNested, "a", FALSE)
+               \o Form3("bx", FBigMax, "a", FALSE) \o BigMinRoot(FALSE)
                \o Form3("ci", FClosedIn, "a", FALSE) \o ClosedShapes(FALSE) \o <<Both, RootOverSub, AliasSchema, EmptyVals>> \o WithCrds
 
 ThoroughShapes == Form3("ty", FType, "a", TRUE) \o Form3("in", FInt, "a", TRUE) \o Form3("rq", FReq, "a", TRUE)
                \o Form3("en", FEnum, "a", TRUE) \o Form3("rg", FRange, "a", TRUE) \o Form3("ne", FNested, "a", TRUE)
+               \o Form3("bx", FBigMax, "a", TRUE) \o BigMinRoot(TRUE)
                \o Form3("ci", FClosedIn, "a", TRUE) \o ClosedShapes(TRUE) \o <<Both, RootOverSub, AliasSchema, EmptyVals>> \o WithCrds
 =============================================================================
